@@ -21,7 +21,7 @@ def run(ck):
             g["calls"] = [dict(pcall(a, "list", extra=False), allot=True) for a in FIT4]
             groups.append(g); ck.cat("dyadic_oversize")
     rng = ck.rng
-    for i in range(100 if q else 3000):
+    for i in range(100 if q else 12000):
         C = rng.choice([10, 50, 100])
         n = rng.randint(1, 10)
         vals = [rng.randint(0, C) for _ in range(n)]
